@@ -153,4 +153,32 @@ theorem publishToSubscribers_writes_exact (s : Server) (hw : WF s) (hcd : ConnDi
     exact List.nodup_iff_count.mp
       (recipients_nodup s hw hcd pk _ (C03_one_entry_per_client s.topics pk.topic)) n
 
+/-! ## … lifted to the declarative matcher (state level)
+
+`EntitledF03`, `EntitledSpec`, `MixedNoLocal`, `MatchingSub`: `Mochi/Lemmas/BrokerDelivery.lean`. -/
+
+/-- **Step 2.**  "has an entry in the subscriber map" becomes "the index holds a plain subscription of the client
+    whose filter `specMatch`es the topic" (C01's scan exactness, re-proved for every structurally sound index
+    `IdxOK` — `hasSub_subscribers_idx`), and the No Local option of the merged subscription becomes "SOME matching
+    subscription of the client has No Local" (F03): `EntitledF03`.  Topic: non-empty, no level `#` (PUBLISH topics
+    contain no wildcard: `publishValidate`). -/
+theorem C03_delivery_exact_state_partial (s : Server) (hw : WF s) (hcd : ConnDistinct s) (hx : IdxOK s.topics)
+    (pk : Msg) (hig : pk.ignore = false) (ht : pk.type = 3) (hq : pk.qos = 0) (hne : pk.topic ≠ [])
+    (hnh : ∀ t ∈ splitLevels pk.topic, t ≠ [hash]) (hsh : (subscribers s.topics pk.topic).shared = []) (n : Nat) :
+    ((∃ ver m me, Out.wrote n (.publish ver m me) ∈ (publishToSubscribers s pk).2) ↔ EntitledF03 s pk n) ∧
+    ((publishToSubscribers s pk).2.filterMap pubConn).count n ≤ 1 ∧
+    ∀ x ∈ (publishToSubscribers s pk).2, (∃ id, x = Out.inline id pk.topic pk.payload) ∨ IsCopy pk x := by
+  obtain ⟨h1, h2, h3⟩ := publishToSubscribers_writes_exact s hw hcd pk hig ht hq hsh n
+  exact ⟨h1.trans (entitledVia_iff_F03 s hx pk hne hnh (C03_one_entry_per_client s.topics pk.topic) n), h2, h3⟩
+
+/-- the same with the hypothesis of C01: the index is the result of a history of index operations -/
+theorem C03_delivery_exact_runOps_partial (s : Server) (hw : WF s) (hcd : ConnDistinct s) (iops : List IOp)
+    (hx : s.topics = runOps iops)
+    (pk : Msg) (hig : pk.ignore = false) (ht : pk.type = 3) (hq : pk.qos = 0) (hne : pk.topic ≠ [])
+    (hnh : ∀ t ∈ splitLevels pk.topic, t ≠ [hash]) (hsh : (subscribers s.topics pk.topic).shared = []) (n : Nat) :
+    ((∃ ver m me, Out.wrote n (.publish ver m me) ∈ (publishToSubscribers s pk).2) ↔ EntitledF03 s pk n) ∧
+    ((publishToSubscribers s pk).2.filterMap pubConn).count n ≤ 1 :=
+  let h := C03_delivery_exact_state_partial s hw hcd (hx ▸ idxOK_runOps iops) pk hig ht hq hne hnh hsh n
+  ⟨h.1, h.2.1⟩
+
 end Mochi.Broker
